@@ -235,9 +235,9 @@ def _sub(*names):
 
 def bounds(tier):
     if tier == 'quick':
-        return {'all_lines': 'pre-emption bound 1, program busy, K=64 student steps before the timer',
+        return {'all_lines': 'pre-emption bound 1, program busy, K=44 student steps before the timer',
                 'shared_state_lines_b1': 'pre-emption bound 1, all 8 programs, K=64',
-                'shared_state_lines_b2': 'pre-emption bound 2, programs slow_error and block, K=25',
+                'shared_state_lines_b2': 'pre-emption bound 2, programs slow_error and block, K=18',
                 'drain_horizon_steps': 400}
     return {'all_lines': 'pre-emption bound 1, all 5 programs, K=90',
             'shared_state_lines_b2': 'pre-emption bound 2, all 5 programs, K=40',
@@ -252,9 +252,9 @@ def phases(tier):
         return [
             Phase('shared-state-lines-b1', make_body(PROGRAMS, 64, True), bound=1, setup=_setup, chunk=150, horizon_s=60,
                   describe='points = lines touching shared state; all programs; pre-emption bound 1'),
-            Phase('all-lines-b1', make_body(_sub('busy'), 64, False), bound=1, setup=_setup, chunk=150, horizon_s=60,
+            Phase('all-lines-b1', make_body(_sub('busy'), 44, False), bound=1, setup=_setup, chunk=150, horizon_s=60,
                   describe='every line of sandbox.py/timeout.py/student code is a point; busy loop; pre-emption bound 1'),
-            Phase('shared-state-lines-b2', make_body(_sub('slow_error', 'block'), 25, True), bound=2, setup=_setup, chunk=150,
+            Phase('shared-state-lines-b2', make_body(_sub('slow_error', 'block'), 18, True), bound=2, setup=_setup, chunk=150,
                   horizon_s=60, describe='points = lines touching shared state; terminating and blocking student; bound 2'),
             fr]
     return [
